@@ -10,7 +10,7 @@ INV = ["CrashOpens", "CrashWindow", "RealOpens", "RealWindow"]
 
 def jobs_for(rng, tier):
     jobs = []
-    n = 14 if tier == "quick" else 100
+    n = 20 if tier == "quick" else 120
     for i in range(n):
         fmt = [3, 3, 3, 2, 1][i % 5]
         jobs.append(("w%d" % i, ["--seed", str(rng.randrange(1 << 30)), "--steps", str(rng.choice([25, 35, 45])),
@@ -18,7 +18,7 @@ def jobs_for(rng, tier):
                                  "--cpus", str(rng.choice([2, 2, 4, 8])), "--keys", str(rng.choice([3, 4, 5])),
                                  "--ttl", "1", "--end", rng.choice(["drop", "drop", "drop", "leak"]),
                                  "--flushpct", str(rng.choice([14, 14, 6, 3])),
-                                 "--maximages", "1500" if tier == "quick" else "4000"] + ["--sessions", str(rng.choice([1, 2, 3]))]))
+                                 "--maximages", "1500" if tier == "quick" else "4000"] + ["--sessions", str(rng.choice([1, 3, 3, 4]))]))
     return jobs
 
 
